@@ -138,19 +138,25 @@ func (eng *Engine) loadSpecs() error {
 				depth--
 				if depth == 0 && start >= 0 {
 					form := s[start : i+1]
-					if m := defineFunRe.FindStringSubmatch(form); m != nil {
-						name := strings.Trim(m[2], "|")
+					toks := splitTop(form[1 : len(form)-1])
+					if len(toks) >= 4 && (toks[0] == "define-fun" || toks[0] == "define-fun-rec" || toks[0] == "declare-fun") {
+						name := strings.Trim(toks[1], "|")
 						var args []string
-						if m[1] == "declare-fun" {
-							args = splitSorts(m[3])
-						} else {
-							// ((a Int) (b Int))
-							re := regexp.MustCompile(`\(\s*\S+\s+(\([^()]*\)|[^\s()]+)\s*\)`)
-							for _, am := range re.FindAllStringSubmatch(m[3], -1) {
-								args = append(args, am[1])
+						inner := strings.TrimSpace(toks[2])
+						if strings.HasPrefix(inner, "(") {
+							for _, a := range splitTop(inner[1 : len(inner)-1]) {
+								if toks[0] == "declare-fun" {
+									args = append(args, a)
+								} else {
+									// (name Sort)
+									ps := splitTop(a[1 : len(a)-1])
+									if len(ps) == 2 {
+										args = append(args, ps[1])
+									}
+								}
 							}
 						}
-						sf := specFunc{args: args, ret: m[4]}
+						sf := specFunc{args: args, ret: toks[3]}
 						if len(args) >= 3 && args[0] == "(Array Int Int)" {
 							eng.seqFuncs[name] = sf
 						} else {
